@@ -314,6 +314,7 @@ Section Whole.
   Variable crow : bool.        (* the direction of the container *)
   Hypothesis SR_weak : forall s s', SR s s' -> fstyle_wrel k crow s s'.
   Variables tau tau' : XQ.
+  Variable prow : bool.        (* the direction of the container's own parent: irrelevant, nothing reads the container's flex_basis *)
   Notation L := (sc k).
   Notation O := (op_rel (sc k)).
   Notation A := (av_rel (sc k)).
@@ -343,7 +344,7 @@ Section Whole.
 
   (* steps 6 .. end *)
   Lemma flex_after_main_size_rel s s' absl absl' flags inp inp' kc kc' av av' lens om om' im im' ws ws' :
-    fstyle_wrel k crow s s' -> Forall2 (absc_rel SR) absl absl' -> fin_rel k inp inp' -> kconst_rel k kc kc' -> sz_rel A av av' ->
+    fstyle_wrel k prow s s' -> Forall2 (absc_rel SR) absl absl' -> fin_rel k inp inp' -> kconst_rel k kc kc' -> sz_rel A av av' ->
     L om om' -> L im im' -> Forall2 WR ws ws' ->
     AR (flex_after_main_size s absl flags inp kc av lens om im ws) (flex_after_main_size s' absl' flags inp' kc' av' lens om' im' ws').
   Proof.
@@ -432,7 +433,7 @@ Section Whole.
 
   Lemma flex_core_t_rel s s' inp inp' kc kc' items items' absl absl' flags :
     floor_ok kc (determine_available_space (qi_known inp) (qi_avail inp) kc) -> k_row kc = crow ->
-    fstyle_wrel k crow s s' -> fin_rel k inp inp' -> kconst_rel k kc kc' -> Forall2 WR items items' -> Forall2 (absc_rel SR) absl absl' ->
+    fstyle_wrel k prow s s' -> fin_rel k inp inp' -> kconst_rel k kc kc' -> Forall2 WR items items' -> Forall2 (absc_rel SR) absl absl' ->
     AR (flex_core_t tau s inp kc items absl flags) (flex_core_t tau' s' inp' kc' items' absl' flags).
   Proof.
     intros Hfloor Ecrow Ws Hinp Hc Hit Habs. unfold flex_core_t.
@@ -489,10 +490,10 @@ Section Whole.
 
   Theorem flex_alg_t_rel s s' st st' i i' :
     (sc k tau tau' /\ gtb tau zero = true) \/ flex_main_not_intrinsic s i = true -> fs_row s = crow ->
-    SR s s' -> Forall2 SR st st' -> fin_rel k i i' ->
+    fstyle_wrel k prow s s' -> Forall2 SR st st' -> fin_rel k i i' ->
     AR (flex_alg_t tau s st i) (flex_alg_t tau' s' st' i').
   Proof.
-    intros Hfloor Ecrow Hs Hst Hi. unfold flex_main_not_intrinsic in Hfloor. pose proof (SR_weak _ _ Hs) as Ws. pose proof Ws as Ws0. wstyle_open Ws.
+    intros Hfloor Ecrow Ws Hst Hi. unfold flex_main_not_intrinsic in Hfloor. pose proof Ws as Ws0. wstyle_open Ws.
     pose proof Hi as (Emode & Esz & Eax & Hkd & Hps & Hiav & Ecol). unfold flex_alg_t. rewrite Emode, Esz.
     pose proof (Wkd _ _ _ _ (qi_sizing i) Hkd Hps) as Hskd.
     set (kd := styled_known_dimensions (to_cstyle s) (qi_known i) (qi_parent i) (qi_sizing i)) in *.
